@@ -162,6 +162,21 @@ class Dict(Ty):
         return _sort_cache[kk]
 
 
+class Map(Ty):
+    """Total function K -> V (a view derived from the heap; no domain, no KeyError)."""
+
+    def __init__(self, k: Ty, v: Ty):
+        self.k = k
+        self.v = v
+        self.key = ("Map", k.key, v.key)
+
+    def name(self):
+        return f"Map[{self.k.name()},{self.v.name()}]"
+
+    def sort(self):
+        return z3.ArraySort(self.k.sort(), self.v.sort())
+
+
 class Ref(Ty):
     """Reference to a heap object of a declared class (fields live in the heap)."""
 
